@@ -24,4 +24,23 @@ if ! go build -tags verif "${OVERLAY[@]}" -o "$BIN" "./harness/$lc/" 2> ".work/b
 fi
 flock -u 7
 [ -n "${VERIF_BUILD_ONLY:-}" ] && exit 0
-exec "$BIN" --tier "$TIER" "$@"
+if [ "$TIER" != thorough ] || [ -n "${VERIF_NO_PREPASS:-}" ] || [ $# -gt 0 ]; then
+  exec "$BIN" --tier "$TIER" "$@"
+fi
+# thorough = the whole quick tier first (so that a wall-clock cap in the thorough exploration can only ever cut
+# work that the quick tier does not do), then the thorough exploration; the quick stage's coverage is embedded
+# in the thorough evidence under coverage.quick_stage.
+EVD="${VERIF_EVIDENCE_DIR:-/verif/evidence}"
+QD=".work/quickstage-$lc-$$"; rm -rf "$QD"; mkdir -p "$QD"
+VERIF_EVIDENCE_DIR="/verif/$QD" "$BIN" --tier quick; rc=$?
+if [ $rc -ne 0 ]; then
+  # a violation (or an engine error) in the quick stage: report it as this run's result
+  mkdir -p "$EVD"; [ -f "$QD/$ID.json" ] && jq '.tier="thorough" | .coverage.stage="quick stage of the thorough tier (stopped here)"' "$QD/$ID.json" > "$EVD/$ID.json"
+  rm -rf "$QD"; exit $rc
+fi
+"$BIN" --tier thorough; rc=$?
+if [ -f "$QD/$ID.json" ] && [ -f "$EVD/$ID.json" ]; then
+  jq --slurpfile q "$QD/$ID.json" '.coverage.quick_stage = ($q[0].coverage | del(.samples)) | .coverage.quick_stage_wall_s = $q[0].wall_s' "$EVD/$ID.json" > "$QD/merged.json" && mv "$QD/merged.json" "$EVD/$ID.json"
+fi
+rm -rf "$QD"
+exit $rc
